@@ -38,6 +38,7 @@ func init() {
 			Assumptions: []string{"encoding/json, net.ParseIP, regexp, strconv behave as documented"},
 			Trusted:     []string{"go/packages", "go/types", "go/ssa", "encoding/json"},
 			RuleDoc: map[string]string{
+				"R2.policy": "namespace-policy set {NONS, NSOK}; force-command token positions and length guards",
 				"R4.bounds": "index/slice/assertion obligations from NewReqParam down",
 				"R4.nil":    "json-null / use-before-error-check obligations from NewReqParam down",
 			},
@@ -52,4 +53,5 @@ func runC14(c *Ctx) {
 		return
 	}
 	runPanicRules(c, "R4", reqParamEntries(c.w), 20)
+	tablesC14(c)
 }
